@@ -90,6 +90,30 @@ def canon_key(key: str) -> str:
         return key
 
 
+def expand_single_defs(node, fn):
+    """copy of `node` with every local name that is bound exactly once in `fn` (plain `name = <expr>`, not a parameter, loop or
+    comprehension variable) replaced by its defining expression (one level)"""
+    import copy as _copy
+    defs = {}
+    for a in ast.walk(fn):
+        if isinstance(a, (ast.Assign, ast.AugAssign, ast.AnnAssign, ast.For, ast.comprehension, ast.NamedExpr, ast.With)):
+            tg = a.targets if isinstance(a, ast.Assign) else ([a.target] if hasattr(a, "target") else [i.optional_vars for i in a.items if i.optional_vars is not None])
+            for t in tg:
+                for x in ast.walk(t):
+                    if isinstance(x, ast.Name):
+                        defs.setdefault(x.id, []).append(a)
+    params = {a.arg for a in fn.args.posonlyargs + fn.args.args + fn.args.kwonlyargs}
+
+    class Sub(ast.NodeTransformer):
+        def visit_Name(self, x):
+            d = defs.get(x.id, [])
+            if isinstance(x.ctx, ast.Load) and len(d) == 1 and isinstance(d[0], ast.Assign) and len(d[0].targets) == 1 and isinstance(d[0].targets[0], ast.Name) \
+                    and x.id not in params and not isinstance(d[0].value, (ast.Constant, ast.Name)):
+                return _copy.deepcopy(d[0].value)
+            return x
+    return Sub().visit(_copy.deepcopy(node))
+
+
 def shape_of(node_or_text) -> str:
     """rename-invariant form of a construct: local variable names replaced by `_` (attribute, callee and keyword names and all
     literals are kept).  Known findings are keyed by this, so renaming a variable does not turn a listed finding into a new one."""
@@ -118,6 +142,16 @@ class Finding:
         self.ordinal = 1
         self.sig = ""        # optional semantic signature (e.g. the dimensions combined): part of the known-findings key, so that a
         #                      *different* defect at an already listed construct is reported as new
+
+    def set_alt(self, node):
+        """an equivalent spelling of the construct (single-definition local names replaced by their defining expression): a listed finding is
+        also recognised under this spelling, so that hoisting a sub-expression into a local does not turn it into a new one"""
+        self.alt_shape = shape_of(node)
+
+    @property
+    def alt_key(self):
+        a = getattr(self, "alt_shape", None)
+        return None if not a or a == self.shape else f"{self.rule}|{self.func}|{a}{'|' + self.sig if self.sig else ''}#{self.ordinal}"
 
     @property
     def ident(self):
@@ -179,10 +213,52 @@ class Result:
             for i, x in enumerate(same, 1):
                 x.ordinal = i
 
+    current_funcs = None      # set by decide(): names of the functions present in the tree under check
+
+    def split_known(self):
+        """-> (listed, new): [(finding, known entry)], [finding].  A listed finding is recognised under its recorded key; when the function
+        it was recorded in no longer exists in the tree (merged into its caller and deleted), the same rule / shape / signature reported from
+        another function is the same finding that moved - each listed entry is consumed at most once, anything beyond it is new."""
+        known = {k["key"]: k for k in load_known().get("known", []) if k["property"] == self.pid}
+        listed, new, used = [], [], set()
+        for f in self.findings:
+            if f.key in known:
+                listed.append((f, known[f.key]))
+                used.add(f.key)
+            elif f.alt_key in known and f.alt_key not in used:
+                listed.append((f, known[f.alt_key]))
+                used.add(f.alt_key)
+            else:
+                new.append(f)
+        if new and self.current_funcs is not None:
+            def parts(key):
+                rule, _, rest = key.partition("|")
+                func, _, rest = rest.partition("|")
+                return rule, func, rest.rsplit("#", 1)[0]
+            free = {}
+            for k in known:
+                rule, func, rest = parts(k)
+                base = func.split(" (")[0]
+                if k not in used and base not in self.current_funcs and base.split(".")[-1] not in self.current_funcs:
+                    free[k] = (rule, rest)
+            still = []
+            for f in new:
+                rest_f = f"{f.shape}{'|' + f.sig if f.sig else ''}"
+                hit = next((k for k, (rule, rest) in free.items() if rule == f.rule and rest == rest_f), None)
+                if hit is None and f.sig:
+                    # merging a function into its caller substitutes arguments: the spelling changes, the semantic signature does not
+                    hit = next((k for k, (rule, rest) in free.items() if rule == f.rule and rest.endswith("|" + f.sig)), None)
+                if hit is not None:
+                    del free[hit]
+                    listed.append((f, known[hit]))
+                else:
+                    still.append(f)
+            new = still
+        return listed, new
+
     def new_findings(self):
         """findings that are not listed as known for this property"""
-        known = {k["key"] for k in load_known().get("known", []) if k["property"] == self.pid}
-        return [f for f in self.findings if f.key not in known]
+        return self.split_known()[1]
 
     def require(self, cond, what):
         if not cond:
@@ -216,12 +292,11 @@ def finish(res: Result, tier, t0, level="other", explanation="", extra_cov=None,
     for k in known.get("known", []):
         if k["property"] == res.pid:
             kmap[k["key"]] = k
-    new, old = [], []
-    for f in res.findings:
-        (old if f.key in kmap else new).append(f)
-    for f in old:
-        print(f"KNOWN-FINDING: property={res.pid} {kmap[f.key].get('what', f.key)} :: {f}")
-    stale = [k for k in kmap if k not in {f.key for f in res.findings}]
+    listed, new = res.split_known()
+    old = [f for f, _k in listed]
+    for f, k in listed:
+        print(f"KNOWN-FINDING: property={res.pid} {k.get('what', k['key'])} :: {f}")
+    stale = [k for k in kmap if k not in {e["key"] for _f, e in listed}]
     cov = {
         "explanation": explanation,
         "rules": res.rules,
